@@ -240,6 +240,9 @@ class ReplaceStringTransformation(StringValueTransformation):
                 )
             else:
                 sigma_string_plain = str(val)
+                if self.re.search(sigma_string_plain) is None:
+                    # Nothing to replace: keep the value instead of parsing its plain form again.
+                    return val
                 replaced = self.re.sub(self.replacement, sigma_string_plain)
                 postprocessed_backslashes = re.sub(r"\\(?![*?])", r"\\\\", replaced)
                 if val.contains_placeholder():  # Preserve placeholders
